@@ -122,7 +122,7 @@ PROPS = {
     },
     "C04": {
         "n": {"quick": 250, "thorough": 8000},
-        "cone": ["Bytes", "BytesLemmas", "Regex", "Generated", "Channel", "Network", "NetworkAbs", "NetworkLemmas", "Replay"],
+        "cone": ["Bytes", "BytesLemmas", "Regex", "Generated", "Channel", "Network", "NetworkAbs", "NetworkLemmas", "NetworkTwins", "Replay"],
         "rx": True,
         "rule": "network.Driver over the simulated transport against a privilege-tree device: random rooted labelled trees of 1-6 levels (with and "
                 "without authenticated edges, with/without secondary secret), every kind of start mode / default level, histories of 1-6 operations "
@@ -130,7 +130,10 @@ PROPS = {
                 "read segmentations. The transport log is replayed by the model of driver/network (programs over the Channel interpreter); compared: "
                 "per-call outcome/result, every write (with redaction of the secret), the cached level. Oracle: device (mode, line) log = commands of "
                 "the BFS tree path then the operation's lines, final mode = target. Non-trivial = more than one level. A third of the trees have twin sibling leaves with one prompt pattern (as IOS-XR configuration / configuration-exclusive), acquire targets biased to the twins; sessions never start in a twin.",
-        "level_text": "Theorems C04_tree_path / _tree_path_unique / _dfs_order_irrelevant / _acquire / _unknown_target: for every well-formed privilege tree, "
+        "level_text": "C04_acquire_twins / _acquire_many_twins generalise C04_acquire to trees in which several LEAF levels share one prompt (IOS-XR, Junos "
+                      "configuration variants): with an accurate cached level (or an unambiguous mode) every acquire of a session reaches its target along the "
+                      "tree path and re-establishes the cache invariant; side condition found by the proof: no level called UNKNOWN may be a prompt-twin. "
+                      "Theorems C04_tree_path / _tree_path_unique / _dfs_order_irrelevant / _acquire / _unknown_target: for every well-formed privilege tree, "
                       "every iteration order of Go's maps, every (current, target) pair: the DFS returns the unique tree path and the acquire loop drives "
                       "the device along it with exactly the path's commands (graph induction + loop invariant, unbounded). The transcription of "
                       "driver/network/*.go is tied to the code by replaying the logged schedule of real sessions.",
